@@ -147,6 +147,8 @@ func (c Cell) Token() string {
 		return fmt.Sprintf("P%d", c.N)
 	case 'Z':
 		return "Z"
+	case 'V':
+		return "O1"
 	}
 	return "O0"
 }
@@ -191,6 +193,23 @@ type Stmt struct {
 	Raw   string   // Kind 'X': the text
 	Upper bool     // spelling: upper-case keywords
 	Wide  bool     // spelling: extra white space
+	// INSERT … ON CONFLICT (id) DO UPDATE SET / ON DUPLICATE KEY UPDATE: column names and values
+	OnDup  []string
+	OnDupV []Cell
+	// INSERT … SELECT <Rows[0]> instead of VALUES
+	SelSrc bool
+	// UPDATE: SET targets qualified with the alias / table name (MySQL); SET (a, b) = (x, y) (PostgreSQL)
+	QualSets bool
+	MultiSet bool
+}
+
+// setsTok renders SET-like lists as tokens.
+func setsTok(names []string, vals []Cell) string {
+	var sets []string
+	for i, c := range names {
+		sets = append(sets, c+"="+vals[i].Token())
+	}
+	return orNone(sets, ",")
 }
 
 func (s *Stmt) Token() string {
@@ -204,11 +223,22 @@ func (s *Stmt) Token() string {
 			}
 			rows = append(rows, orNone(cs, ","))
 		}
-		return "I:" + s.Table + ":" + orNone(s.Cols, ",") + ":" + orNone(rows, ";") + ":" + orNone(s.Ret, ",")
+		tok := "I:" + s.Table + ":" + orNone(s.Cols, ",") + ":" + orNone(rows, ";") + ":" + orNone(s.Ret, ",")
+		if len(s.OnDup) > 0 || s.SelSrc {
+			src := "V"
+			if s.SelSrc {
+				src = "S"
+			}
+			tok += ":" + setsTok(s.OnDup, s.OnDupV) + ":" + src
+		}
+		return tok
 	case 'U':
 		var sets []string
 		for i, c := range s.Sets {
 			sets = append(sets, c+"="+s.SetV[i].Token())
+		}
+		if s.MultiSet {
+			return "U:" + s.Table + ":" + aliasTok(s.Alias) + ":" + orNone(sets, ",") + ":" + orNone(s.Ret, ",") + ":M"
 		}
 		return "U:" + s.Table + ":" + aliasTok(s.Alias) + ":" + orNone(sets, ",") + ":" + orNone(s.Ret, ",")
 	case 'S':
@@ -256,16 +286,37 @@ func (s *Stmt) SQL() string {
 		if len(s.Cols) > 0 {
 			b.WriteString(" (" + strings.Join(s.Cols, ", ") + ")")
 		}
-		b.WriteString(sp + s.kw("values") + " ")
-		for i, r := range s.Rows {
-			if i > 0 {
-				b.WriteString("," + sp)
-			}
+		if s.SelSrc {
 			var cs []string
-			for _, c := range r {
+			for _, c := range s.Rows[0] {
 				cs = append(cs, c.SQL())
 			}
-			b.WriteString("(" + strings.Join(cs, ", ") + ")")
+			b.WriteString(sp + s.kw("select") + " " + strings.Join(cs, ", "))
+		} else {
+			b.WriteString(sp + s.kw("values") + " ")
+			for i, r := range s.Rows {
+				if i > 0 {
+					b.WriteString("," + sp)
+				}
+				var cs []string
+				for _, c := range r {
+					cs = append(cs, c.SQL())
+				}
+				b.WriteString("(" + strings.Join(cs, ", ") + ")")
+			}
+		}
+		if len(s.OnDup) > 0 {
+			b.WriteString(sp + s.kw("on conflict") + " (id) " + s.kw("do update set") + " ")
+			for i, c := range s.OnDup {
+				if i > 0 {
+					b.WriteString(", ")
+				}
+				if s.OnDupV[i].K == 'V' { // the value proposed for insertion
+					b.WriteString(c + " = excluded." + c)
+				} else {
+					b.WriteString(c + " = " + s.OnDupV[i].SQL())
+				}
+			}
 		}
 		if len(s.Ret) > 0 {
 			b.WriteString(sp + s.kw("returning") + " " + targetsSQL(s.Ret))
@@ -276,11 +327,19 @@ func (s *Stmt) SQL() string {
 			b.WriteString(" " + s.kw("as") + " " + s.Alias)
 		}
 		b.WriteString(sp + s.kw("set") + " ")
-		for i, c := range s.Sets {
-			if i > 0 {
-				b.WriteString(", ")
+		if s.MultiSet {
+			var vs []string
+			for _, v := range s.SetV {
+				vs = append(vs, v.SQL())
 			}
-			b.WriteString(c + " = " + s.SetV[i].SQL())
+			b.WriteString("(" + strings.Join(s.Sets, ", ") + ") = (" + strings.Join(vs, ", ") + ")")
+		} else {
+			for i, c := range s.Sets {
+				if i > 0 {
+					b.WriteString(", ")
+				}
+				b.WriteString(c + " = " + s.SetV[i].SQL())
+			}
 		}
 		if s.Where != nil {
 			b.WriteString(sp + s.kw("where") + " id = " + s.Where.SQL())
